@@ -55,7 +55,10 @@ func ZZ_C01_partialIntake() {
 		zz.Assert("forwarded_not_beyond_next_round", pr <= nextRound)
 		zz.Assert("forwarded_above_head", pr > head.Round)
 		zz.Assert("forwarded_without_error", err == nil)
-		zz.Assert("forwarded_only_current_epoch_valid_kinds", kind == 0 || kind == 3)
+		// (on unchained schemes the digest does not cover the previous signature: a partial "for another previous
+		// signature" is a valid partial of the round)
+		unchained := nw.sch.Name != zzSchemeNames[0]
+		zz.Assert("forwarded_only_current_epoch_valid_kinds", kind == 0 || kind == 3 || (unchained && kind == 2))
 	}
 	if kind == 5 {
 		zz.Assert("old_epoch_share_never_forwarded", !forwarded)
